@@ -103,6 +103,16 @@ func Run(o Options) int {
 		findingProp[f.Obligation] = f.Property
 	}
 	units := w.UnitsFor(o.Prop)
+	if o.Prop == "C09" && !o.Sweep {
+		// C09 (no client input can crash the server): the panic-freedom obligations of every function under contract in
+		// the files that handle client input
+		units = nil
+		for _, u := range w.UnitsFor("") {
+			if w.UnitInFiles(u, sweepFiles) {
+				units = append(units, u)
+			}
+		}
+	}
 	if o.Sweep {
 		units = w.SweepUnits(sweepFiles)
 	}
@@ -240,7 +250,11 @@ func Run(o Options) int {
 				}
 				continue
 			}
-			if !o.Sweep && !isDep[u.Name] && !uo.res.Belongs(ob, o.Prop) {
+			if o.Prop == "C09" && !o.Sweep {
+				if ob.Kind != "safe" && ob.Kind != "decreases" && ob.Kind != "call-pre" && !vc.TagHasProp(ob.Tag, "C09") {
+					continue
+				}
+			} else if !o.Sweep && !isDep[u.Name] && !uo.res.Belongs(ob, o.Prop) {
 				continue
 			}
 			if o.Sweep && ob.Kind != "safe" {
